@@ -975,6 +975,14 @@ Proof.
   cbn [allvar forallb] in Hq. apply andb_true_iff in Hq. destruct Hq as [Hqh Hqt]. fold (allvar qt) in Hqt.
   assert (Ht : tok env d t = true) by (inversion Hts; assumption).
   assert (Htr : toks trest) by (inversion Hts; assumption).
+  destruct (existsb (forallb is_var) rows) eqn:Hany.
+  { (* a row of identifiers: nothing is missing *)
+    injection H as <-. split; [intros w []|]. intros vs Hvs Hno. exfalso.
+    apply existsb_exists in Hany. destruct Hany as (r & Hr & Hvar).
+    rewrite Forall_forall in Hrows. pose proof (forall2b_length _ _ _ (Hrows r Hr)) as L1.
+    pose proof (forall2b_length _ _ _ Hvs) as L2.
+    specialize (Hno r Hr). rewrite (vmatch_allvar r vs Hvar) in Hno by congruence. discriminate Hno. }
+  clear Hany.
   rewrite Hqh in H. cbn [andb] in H.
   destruct (forallb (fun r => match r with p :: _ => is_var p | [] => false end) rows) eqn:Hall.
   { (* the identifier-column shortcut *)
@@ -1162,6 +1170,7 @@ Proof.
   change (list_sum (map (ty_size env d) (t :: trest))) with (ty_size env d t + list_sum (map (ty_size env d) trest))%nat in Hf.
   assert (H1 : (1 <= ty_size env d t)%nat).
   { destruct d as [|d0]; [discriminate|]. rewrite ty_size_S. destruct t; try lia; destruct (assocN _ _); lia. }
+  destruct (existsb (forallb is_var) rows); [discriminate|].
   rewrite Hqh. cbn [andb].
   destruct (forallb (fun r => match r with p :: _ => is_var p | [] => false end) rows) eqn:Hall.
   - rewrite forallb_forall in Hall.
@@ -1353,6 +1362,18 @@ Example ex_shortcut :
           [PTuple [PVar 0; PVar 0; PRange false 1 4]];
           [PTuple [PVar 0; PVar 0; PRange false 6 255]]].
 Proof. vm_compute. reflexivity. Qed.
+
+(* the diagonal shape: 6 bool columns, arm i tests column i only, a last arm of identifiers;
+   the row-of-identifiers exit answers at once (without it: 2^6 constructor splits) *)
+Definition diag_ty : ty := TTuple (repeat TBool 6).
+Definition diag_arm (i : nat) : pattern :=
+  PTuple (map (fun j => if Nat.eqb i j then PBool true else PVar 0) (seq 0 6)).
+Definition diag_arms : list pattern := map diag_arm (seq 0 6) ++ [PTuple (repeat (PVar 0) 6)].
+Example ex_diagonal :
+  length diag_arms = 7%nat /\ check_exhaustive 8 env1 diag_ty diag_arms = Some [] /\
+  check_exhaustive 8 env1 diag_ty (map diag_arm (seq 0 6))
+  = Some [[PTuple (repeat (PBool false) 6)]].
+Proof. vm_compute. repeat split. Qed.
 
 (* too little fuel: no verdict *)
 Example ex_no_fuel : check_exhaustive 3 env1 tb [PTuple [PRange false 0 9; PBool true]] = None.
